@@ -211,7 +211,9 @@ static size_t ZSTD_decodeLiteralsBlock(ZSTD_DCtx* dctx,
                 } else {
                     if (singleStream) {
 #if defined(HUF_FORCE_DECOMPRESS_X2)
-                        hufSuccess = HUF_decompress1X_DCtx_wksp(
+                        /* not HUF_decompress1X_DCtx_wksp() : its legacy shortcuts (cSrcSize > dstSize is 'invalid',
+                         * == dstSize 'not compressed', == 1 'RLE') are not part of the zstd format, where litCSize includes the tree */
+                        hufSuccess = HUF_decompress1X2_DCtx_wksp(
                             dctx->entropy.hufTable, dctx->litBuffer, litSize,
                             istart+lhSize, litCSize, dctx->workspace,
                             sizeof(dctx->workspace), flags);
